@@ -195,8 +195,8 @@ CLAIMED['C08'] = dict(
 CLAIMED['C13'] = dict(
    text='PARTIAL. Machine-checked proof (token level: keyword, Z/M marker, nested coordinate tuples; any number of parts, holes, vertices) that reading what was written with the '
         'type own reader returns the very same shape for points, linestrings, polygons with holes and the three multi forms, that parse_wkt dispatches to that reader, that '
-        'box/circle/ellipse/ring/wedge write and dispatch as POLYGON (box = exactly the WKT of its polygon form; curved shapes conditional on the sampled outline being closed and '
-        'counter-clockwise, which the correspondence observes), that a wrong or unknown keyword, lowercase keyword, wrong nesting depth or a tuple of arity outside 2..4 gives '
+        'MULTIPOINT is also read in the OGC form with one parenthesised coordinate per point (what Shapely writes; repair D41), box/circle/ellipse/ring/wedge write and dispatch as POLYGON (box = exactly the WKT of its polygon form; curved shapes conditional on the sampled outline being closed and '
+        'counter-clockwise, which the correspondence observes), that a wrong or unknown keyword, lowercase keyword, unaccepted nesting depth or a tuple of arity outside 2..4 gives '
         'ValueError, and that everything the gate accepts has the keyword, depth and arities of its type. REFUTED and recorded as findings: z = 0 is dropped (D14b); a digit run '
         'split by the number pattern gives TypeError (D26). Tied to the code by the translator (the 11 regular expressions and the parser table of the CURRENT tree, re-parsed '
         'with the stdlib regex parser and proved equal to the model terms), an executable character-level model of the readers, and an in-Coq correspondence on round trips of '
@@ -243,8 +243,8 @@ CLAIMED['C20'] = dict(
         'points, multi-points, and box / curved shapes come back as the polygon with the same linear rings; the time columns / pandas cells / KML TimeStamp-TimeSpan are inverted '
         'by the readers for {no dt, instant, interval}; GeoPandas geometry relative to the C13 WKT theorem; KML geometry relative to the C14 theorem. Property dictionaries: '
         'string/int/bool (shapefile), pandas-kept values, non-empty strings (KML) survive (_partial); equality is REFUTED with witnesses: findings D38 (float truncated), D39 (ID '
-        'added), D40/D42 (missing keys filled), D43 (sub_folder_0), D45/D46 (non-string / falsy KML values), D44 (one-member multi-shapes lose their type), D41 (MULTIPOINT text of '
-        'Shapely 2 rejected). Tied to the code by an in-Coq correspondence on 480-540 (quick) real archive / frame / folder round trips per run: Coq checks that the writer glue '
+        'added), D40/D42 (missing keys filled), D43 (sub_folder_0), D45/D46 (non-string / falsy KML values), D44 (one-member multi-shapes lose their type); D41 (MULTIPOINT text of '
+        'Shapely 2 rejected) was repaired in /repo and is now a proved round trip. Tied to the code by an in-Coq correspondence on 480-540 (quick) real archive / frame / folder round trips per run: Coq checks that the writer glue '
         'equals what the codec stored, that the contract instance holds on what the codec returned, and that the reader glue on the observed codec output equals the implementation '
         'shape; an independent Python oracle evaluates the property itself.',
    note='Trusted: Coq kernel + vm_compute; ArchiveM mirrors the glue (correspondence only); the codec contracts are premises of the theorems and are CHECKED per case, not proved; '
